@@ -33,6 +33,7 @@ func (p *partDisk) Writer() io.WriteSeeker {
 
 // Reader implements Part.
 func (p *partDisk) Reader() (io.ReadCloser, error) {
+	verifHook("partDisk:reader")
 	// read from RAM if possible
 	if p.buffer != nil {
 		return io.NopCloser(bytes.NewReader(p.buffer.Bytes())), nil
